@@ -41,8 +41,11 @@ def main():
                 for extra in os.listdir(sd):
                     if extra.endswith(".ms") and extra != "demo.ms":
                         shutil.copy(os.path.join(sd, extra), d)
-                rr = subprocess.run([binary, "run", "demo.ms", "-q"], cwd=d, capture_output=True, text=True, timeout=60, env=tenv)
-                res[label] = {"rc": rr.returncode, "stdout": rr.stdout[-600:], "stderr_tail": rr.stderr[-300:]}
+                try:
+                    rr = subprocess.run([binary, "run", "demo.ms", "-q"], cwd=d, capture_output=True, text=True, timeout=60, env=tenv)
+                    res[label] = {"rc": rr.returncode, "stdout": rr.stdout[-600:], "stderr_tail": rr.stderr[-300:]}
+                except subprocess.TimeoutExpired:
+                    res[label] = {"rc": 124, "stdout": "", "stderr_tail": "timeout after 60 s"}
                 shutil.rmtree(d, ignore_errors=True)
             res["differs"] = (res["with_change"]["rc"], res["with_change"]["stdout"]) != (res["without_change"]["rc"], res["without_change"]["stdout"])
             out["_demo"] = res
